@@ -977,11 +977,8 @@ class RegionVariable(RegionDirective, VariableDirective):
 
     def parse_optional(self, parser: Parser, state: ParsingState) -> bool:
         region = parser.parse_optional_region()
-        res = region is None
-        if res:
-            region = Region()
-        self.set(state, region)
-        return res
+        self.set(state, Region() if region is None else region)
+        return region is not None
 
     def get(self, op: IRDLOperation) -> Region:
         return getattr(op, self.name)
